@@ -5,6 +5,7 @@ import (
 	"bytes"
 	"errors"
 	"fmt"
+	"io"
 	"os"
 	"os/signal"
 	"runtime/debug"
@@ -46,15 +47,25 @@ func (w *limitWriter) Write(p []byte) (int, error) {
 // flakyWriter fails exactly one Write call (the n-th), completely, and accepts everything else;
 // capWriter rejects (completely) every write larger than its capacity.
 type flakyWriter struct {
-	failAt int
-	calls  int
-	buf    []byte
+	failAt  int
+	calls   int
+	buf     []byte
+	partial int   // bytes the failing call accepts before it reports its error
+	err     error // the error of the failing call (errSink when nil)
 }
 
 func (w *flakyWriter) Write(p []byte) (int, error) {
 	w.calls++
 	if w.calls == w.failAt {
-		return 0, errSink
+		k := w.partial
+		if k > len(p) {
+			k = len(p)
+		}
+		w.buf = append(w.buf, p[:k]...)
+		if w.err != nil {
+			return k, w.err
+		}
+		return k, errSink
 	}
 	w.buf = append(w.buf, p...)
 	return len(p), nil
@@ -223,6 +234,19 @@ func checkC17(c *ctx) {
 			if werr == nil {
 				c.Violation(fmt.Sprintf("C17 WriteTo: the %d-th of %d writes to the destination failed (once; later writes succeed) but WriteTo reported success with %d of %d bytes delivered\nbatch: %s", j, nCalls, len(fw.buf), total, clip(b.Sx().String())), false)
 				return
+			}
+		}
+		// the same with a failing call that accepts part of its bytes and reports one of the errors a
+		// caller might be tempted to retry (short write, EAGAIN, EINTR - plain or wrapped)
+		for j := 1; j <= nCalls; j++ {
+			for ei, e := range []error{io.ErrShortWrite, syscall.EAGAIN, fmt.Errorf("write: %w", syscall.EINTR)} {
+				fw := &flakyWriter{failAt: j, partial: 1 + (j+ei)%7, err: e}
+				_, werr := sb.WriteTo(fw)
+				c.Count("writeto_transient_faults")
+				if werr == nil && !bytes.Equal(fw.buf, full) {
+					c.Violation(fmt.Sprintf("C17 WriteTo: the %d-th of %d writes to the destination accepted %d bytes and reported %v (once; later writes succeed); WriteTo reported success but the destination holds %d bytes that are not the file (%d bytes)\nbatch: %s", j, nCalls, fw.partial, e, len(fw.buf), total, clip(b.Sx().String())), false)
+					return
+				}
 			}
 		}
 		for _, mx := range []int{0, 3, 51, 52, 100, 4095, 4096, total - 53, total - 1} {
